@@ -382,13 +382,15 @@ func valueEnding
   props C06
   option safety
   option pure
+  ensures a-digit-a-letter-a-closing-bracket-a-backtick-or-a-dot-ends-a-value-nothing-else-does: result <==> ((ch >= 48 && ch <= 57) || (ch >= 97 && ch <= 122) || (ch >= 65 && ch <= 90) || ch == 41 || ch == 93 || ch == 96 || ch == 46)
 
 func precededByValue
   props C06
   option safety
   requires 0 <= i && i <= len(expr)
-  loop 1 invariant -1 <= j && j < i
+  loop 1 invariant -1 <= j && j < i && forall(k, j + 1, i, expr[k] == 32 || expr[k] == 9 || expr[k] == 10 || expr[k] == 13)
   loop 1 decreases j + 1
+  ensures a-minus-is-a-subtraction-exactly-when-the-nearest-character-before-it-that-is-no-blank-ends-a-value: result <==> exists(j, 0, i, valueEnding(expr[j]) && forall(k, j + 1, i, expr[k] == 32 || expr[k] == 9 || expr[k] == 10 || expr[k] == 13))
 
 func tokenize
   props C06
